@@ -213,6 +213,7 @@ func c01plan(tier string, seed int64) []run.Job {
 	}
 	for i := 0; i < nr; i++ {
 		jobs = append(jobs, run.Job{Family: "random", Seed: seed*100000 + int64(i), N: per, P: map[string]int{"strat": 1, "maxlen": 8, "inputs": 6}})
+		jobs = append(jobs, run.Job{Family: "layered", Seed: seed*100000 + 80000 + int64(i), N: per / 2, P: map[string]int{"inputs": 6}})
 		jobs = append(jobs, run.Job{Family: "mutual", Seed: seed*100000 + 50000 + int64(i), N: per, P: map[string]int{"inputs": 6, "maxlen": 10}})
 	}
 	jobs = append(jobs, enumJobs(maxNodes, false, 4, 400)...)
